@@ -702,6 +702,88 @@ func init() {
 			}
 		}, nil
 	}
+	// C09/C12: a claims type written from scratch, with claims of Go types the built-in profiles do not use, encoded and
+	// decoded by the library's own modes through the dispatching entry points: decode(encode(x)) is x, byte-stable
+	for _, isJSON := range []bool{false, true} {
+		isJSON := isJSON
+		Scenarios[map[bool]string{false: "c09", true: "c12"}[isJSON]+".plain-claims-type"] = func() (choice.Scenario, func() any) {
+			return func(c *choice.Ctx) {
+				a := genValidOpt(c, kindP2, false, true)
+				src, err := buildBySetters(a)
+				if err != nil {
+					return
+				}
+				x := ExtPlainProfile{}.GetClaims().(*ExtPlainClaims)
+				prof := x.Profile
+				x.P2Fields = P2Fields(*src.(*psatoken.P2Claims))
+				x.Profile, x.CanonicalProfile = prof, ExtPlainName
+				tag := "plain-claims-type"
+				if v := c.Choose("time", 5); v > 0 {
+					tm := []time.Time{time.Unix(1721138454, 0), time.Unix(0, 0), time.Unix(1<<32+5, 0), time.Unix(-86400, 0)}[v-1].UTC()
+					x.IssuedAt = &tm
+					tag += fmt.Sprintf(":time=%d", tm.Unix())
+				}
+				if v := c.Choose("float", 5); v > 0 {
+					f := []float64{0.5, 1.0, 1e300, -0.1}[v-1]
+					x.Ratio = &f
+					tag += fmt.Sprintf(":float=%g", f)
+				}
+				if v := c.Choose("bool", 3); v > 0 {
+					b := v == 1
+					x.Flag = &b
+					tag += fmt.Sprintf(":bool=%v", b)
+				}
+				if v := c.Choose("uint64", 4); v > 0 {
+					u := []uint64{0, 1 << 63, 1<<64 - 1}[v-1]
+					x.Big = &u
+					tag += fmt.Sprintf(":uint64=%d", u)
+				}
+				encStats.StateStr(fmt.Sprint(tag, isJSON, a.String()))
+				if x.Validate() != nil {
+					return
+				}
+				enc := func(v psatoken.IClaims) ([]byte, error) {
+					if isJSON {
+						return psatoken.ValidateAndEncodeClaimsToJSON(v)
+					}
+					return psatoken.ValidateAndEncodeClaimsToCBOR(v)
+				}
+				id := map[bool]string{false: "C09", true: "C12"}[isJSON]
+				b1, err := enc(x)
+				encStats.Trans.Add(1)
+				if err != nil {
+					c.Failf(id+":encode-error:"+tag, "%v", err)
+					return
+				}
+				var y psatoken.IClaims
+				if isJSON {
+					y, err = psatoken.DecodeAndValidateClaimsFromJSON(b1)
+				} else {
+					y, err = psatoken.DecodeAndValidateClaimsFromCBOR(b1)
+				}
+				encStats.Trans.Add(1)
+				if err != nil {
+					c.Failf(id+":own-encoding-does-not-decode:"+tag, "%v\n%x", err, clip(b1))
+					return
+				}
+				yp, ok := y.(*ExtPlainClaims)
+				if !ok {
+					c.Failf(id+":decoded-type:"+tag, "decoded as %T", y)
+					return
+				}
+				if g1, g2 := getterVector(x), getterVector(y); g1 != g2 {
+					c.Failf(id+":round-trip-differs:"+tag, "getters\n before %s\n after  %s", g1, g2)
+				}
+				eqT := (x.IssuedAt == nil) == (yp.IssuedAt == nil) && (x.IssuedAt == nil || x.IssuedAt.Equal(*yp.IssuedAt))
+				if !eqT || !reflect.DeepEqual(x.Ratio, yp.Ratio) || !reflect.DeepEqual(x.Flag, yp.Flag) || !reflect.DeepEqual(x.Big, yp.Big) {
+					c.Failf(id+":round-trip-differs:added-claims:"+tag, "the added claims differ after the round trip: time %v/%v float %v/%v bool %v/%v uint64 %v/%v", x.IssuedAt, yp.IssuedAt, x.Ratio, yp.Ratio, x.Flag, yp.Flag, x.Big, yp.Big)
+				}
+				if b2, err := enc(y); err != nil || !bytes.Equal(b1, b2) {
+					c.Failf(id+":reencoding-differs:"+tag, "err=%v\n first  %x\n second %x", err, clip(b1), clip(b2))
+				}
+			}, nil
+		}
+	}
 	// C10: claims types that have no encoding methods of their own and embed the profile-2 claims by value, by pointer
 	// and through two pointers, through every encoding entry point: the base claims and the added ones are one map
 	Scenarios["c10.plain-embedding-types"] = func() (choice.Scenario, func() any) {
@@ -1466,12 +1548,14 @@ func init() {
 				exploreChoice(r, "c12.shadowing-profile", 2, dl)
 				exploreChoice(r, "c12.odd-fields-profile", 2, dl)
 				exploreChoice(r, "c12.p1-with-own-profile-key", 2, dl)
+				exploreChoice(r, "c12.plain-claims-type", 2, dl)
 			} else {
 				if prop == "C09" {
 					exploreChoice(r, "c09.ext-wide", -1, dl)
 					exploreChoiceOpts(r, "c09.same-name-claim-types", 1, dl, 1)
 					exploreChoice(r, "c09.shadowing-profile", 2, dl)
 					exploreChoice(r, "c09.odd-fields-profile", 2, dl)
+					exploreChoice(r, "c09.plain-claims-type", 2, dl)
 					for kind := 0; kind < 2; kind++ {
 						exploreChoice(r, fmt.Sprintf("c09.decode-change-roundtrip.%s", kindNames[kind]), b, dl)
 						exploreChoice(r, fmt.Sprintf("c09.method-decode-after-rejected.%s", kindNames[kind]), b, dl)
